@@ -515,6 +515,8 @@ class Cfg:
         self.digit_names = True
         self.unique_names = False
         self.typedef_same_ns = False  # typedefs are placed in the namespace of their template
+        self.p_param_named_inst = 0.12  # an instantiation spelled like another parameter of the same template
+        self.matlab_safe = False      # avoid names that trigger known MATLAB-generator defects (x_set_y)
         self.unique_ns = False        # no two sibling namespaces share a name (no re-opened namespaces)
         self.c02_safe = False        # stay inside the guard of C02_inst_eq_subst_partial (see Props/C02.lean)
         self.__dict__.update(kw)
@@ -526,6 +528,7 @@ class Gen:
         self.cfg = cfg or Cfg()
         self.counter = 0
         self.in_class = False
+        self.ns_depth = 0            # namespace depth of the declaration being generated
         self.nest = 0                # template-argument nesting depth of the type being generated
         self.noscope = set()         # template parameters that must not be used as `T::X` (templated instantiations)
 
@@ -562,8 +565,8 @@ class Gen:
                 return [self.rng.choice(ok)], self.rng.choice(["value_type", "iterator", "scalar"])
         if self.cfg.allow_This and self.in_class and r < 0.47 and (not safe or self.nest == 0):
             return [], "This"
-        if self.cfg.allow_This and self.in_class and r < 0.50 and not safe:
-            return ["This"], self.rng.choice(["Sub", "Value"])
+        if self.cfg.allow_This and self.in_class and r < 0.50 and (not safe or (self.nest == 0 and self.ns_depth == 0)):
+            return ["This"], self.rng.choice(["Sub", "Value", "Verbosity"])
         ns = [self.nsname() for _ in range(self.rng.choice([0, 0, 0, 1, 1, 2]))]
         return ns, self.cname()
 
@@ -669,6 +672,20 @@ class Gen:
         out = []
         for nm in names:
             insts = [self.gen_inst() for _ in range(rng.randint(1, 3))] if (with_lists and rng.random() < 0.8) else []
+            if insts and len(names) > 1 and rng.random() < self.cfg.p_param_named_inst:
+                # a concrete type that happens to be spelled like another parameter of the same template
+                other = rng.choice([x for x in names if x != nm])
+                insts[rng.randrange(len(insts))] = TN([self.nsname()] if rng.random() < 0.5 else [], other)
+            if self.cfg.matlab_safe:
+                seen, uniq = set(), []
+                def iname(t):
+                    return t.name + "".join(iname(x) for x in t.insts)
+                for i in insts:
+                    k = iname(i)
+                    if k not in seen and "unsigned char" not in k:
+                        seen.add(k)
+                        uniq.append(i)
+                insts = uniq
             if any(i.insts for i in insts) or not insts:
                 self.noscope.add(nm)
             else:
@@ -705,7 +722,10 @@ class Gen:
         if k == 'static':
             return Member('static', tmpl=mt, ret=self.gen_ret(tps), name=self.ident(MNAMES), args=self.gen_args(tps))
         if k == 'prop':
-            return Member('prop', var=Var(self.gen_ty(tparams=tps), self.ident(ANAMES + MNAMES),
+            pname = self.ident(ANAMES + MNAMES)
+            while self.cfg.matlab_safe and ("_set_" in pname or "_get_" in pname):
+                pname = self.ident(ANAMES + MNAMES)
+            return Member('prop', var=Var(self.gen_ty(tparams=tps), pname,
                                           self.gen_default() if rng.random() < 0.2 else None))
         if k == 'enum':
             return Member('enum', enum=self.gen_enum())
@@ -754,6 +774,7 @@ class Gen:
         return Class(tmpl, rng.random() < 0.3, name, parent, members)
 
     def gen_decl(self, depth):
+        self.ns_depth = depth
         rng = self.rng
         kinds = ['cls', 'cls', 'cls', 'func', 'func']
         if self.cfg.allow_fwd:
@@ -862,7 +883,7 @@ def gen_module_inst(g: Gen, n_typedefs=None, p_bad_arity=0.03, p_missing=0.03):
             n = n + 1
         if rng.random() < p_missing:
             name = name + "Missing"
-        tn = TN(list(path), name, [g.gen_inst(0 if g.cfg.c02_safe else 1) for _ in range(n)])
+        tn = TN(list(path), name, [g.gen_inst(0 if (g.cfg.c02_safe or g.cfg.matlab_safe) else 1) for _ in range(n)])
         g.counter += 1
         d = Decl('typedef', tn=tn, new_name="%sTd%d" % (name, g.counter))
         if g.cfg.typedef_same_ns:
